@@ -1353,6 +1353,8 @@ def summarize(func_node, canon, leaf=None, keep=()):
         if e.kind in ("break", "continue"):
             raw.append(("effect", [e.kind] + in_loop(e), e.reach))
         elif e.kind == "call":
+            if norm(e.raw.func).startswith(("logger.", "logging.", "log.", "warnings.")) or norm(e.raw.func) == "print":
+                continue        # diagnostics are not behaviour any property talks about
             if e.top or (isinstance(e.raw.func, ast.Attribute) and e.raw.func.attr in MUTATORS and isinstance(e.raw.func.value, ast.Name)):
                 raw.append(("effect", ["call ", e.call] + in_loop(e), e.reach))
         elif e.kind == "aug":
@@ -1539,6 +1541,11 @@ def compare_summaries(code, ref, near=0.7):
             r = difflib.SequenceMatcher(None, tk, _tokens(k2[1]), autojunk=False).ratio()
             if r > best:
                 best, bk = r, k2
+        same_kind_ref = [x for x in ob if x not in ga and x[0] == k[0]]
+        same_kind_code = [x for x in unmatched_code if x[0] == k[0]]
+        if (bk is None or best < near) and len(same_kind_ref) == 1 and len(same_kind_code) == 1 and k[0] != "exit":
+            # the only component of its kind without an exact counterpart on either side: they correspond by elimination
+            bk, best = same_kind_code[0], max(best, near)
         if bk is None or best < near:
             far = True
             details.append(("missing", k[0], k[1], None, best))
